@@ -23,7 +23,8 @@ EXPLANATION = (
     'line numbers, colours and part numbers all switched off (anything else would put non-code into the function body). R4 the only executable lines '
     'dropped are star imports, every other line is kept once and in order. R5 wants are preserved as comments: the want text is added only under '
     '`part.want`, through utils.indent with a prefix that starts with "#", after the source of its part. R6 utils.indent prefixes the first line and every '
-    'line after a newline with the same prefix. That the result parses for every doctest shape (multi-line strings re-indented by indent) is not decided.')
+    'line after a newline with the same prefix. That the result parses for every doctest shape (multi-line strings re-indented by indent) is not decided.'
+    " R7 format_part(prefix=False) reads the executable lines on every path (writer/reader agreement with the dump's star-import removal). R8 the converted module is emitted at level 0. R9 the dump splits global_exec at the separator the run path replaces. R10 = C10.R5 (which doctests are converted).")
 DECIDES = ['PATH-COUNT one function per example / one body entry per part', 'identity components of the function name', 'constant formatting options', 'drop guard of executable lines', 'want comment flow']
 NOT_DECIDED = ['syntactic validity of the generated text for every doctest shape', 'undefined-name import line', 'global-exec header']
 
